@@ -191,7 +191,7 @@ def c10(tier, replay):
     h = vcommon.build_harness()
     q = tier == "quick"
     # (a) the record after play_out_position: exact multiset of identities
-    totals, _ = R.rules_trace(run, "C10", ["--playouts", 400 if q else 4000, "--plies", 60, "--pos", 1, "--repeat-bias", 0.6, "--gen", 0], "record")
+    totals, _ = R.rules_trace(run, "C10", ["--playouts", 200 if q else 3000, "--plies", 40, "--pos", 1, "--repeat-bias", 0.6, "--gen", 0], "record")
     R.need(totals, ["pos"])
     # (b) the record inside the real command loop (several position commands per session; sees a missing clear())
     import checks_uci
